@@ -42,10 +42,66 @@ def roots(prog, kind):
     return sorted(set(out))
 
 
+# receivers on which insert / remove / drain / retain / truncate / swap take no index and are total
+_TOTAL_RECEIVERS = ("HashMap", "HashSet", "BTreeMap", "BTreeSet", "BinaryHeap", "LinkedList", "Option", "Cell", "OnceCell")
+_INDEXED_ONLY = ("::drain", "::swap", "::remove", "::insert", "::swap_remove", "::split_off", "::truncate")
+
+
+def _strip_trailing_generic(c):
+    if c.endswith(">"):
+        depth = 0
+        for i in range(len(c) - 1, -1, -1):
+            if c[i] == ">":
+                depth += 1
+            elif c[i] == "<":
+                depth -= 1
+                if depth == 0:
+                    return c[:i].rstrip(":")
+    return c
+
+
+def receiver_head(c):
+    """name of the type whose method the resolved callee path `c` is: `Vec` for std::vec::Vec::<Option<u8>>::insert,
+    `HashMap` for <HashMap<K, V> as Index<&Q>>::index, `f64` for core::f64::<impl f64>::abs"""
+    c = _strip_trailing_generic(c)
+    if "::" not in c:
+        return ""
+    owner = c.rsplit("::", 1)[0] if not c.startswith("<") else c
+    if owner.startswith("<"):
+        depth = 0
+        for i, ch in enumerate(owner):
+            if ch == "<":
+                depth += 1
+            elif ch == ">":
+                depth -= 1
+                if depth == 0:
+                    owner = owner[1:i]
+                    break
+        owner = owner.split(" as ")[0]
+        owner = owner.lstrip("&").replace("mut ", "").replace("impl ", "").strip()
+    m = re.search(r"(^|::)<impl (.*)>$", owner)
+    if m:
+        return _strip_trailing_generic(m.group(2)).rsplit("::", 1)[-1]
+    owner = _strip_trailing_generic(owner)
+    head = owner.split("<")[0] if not owner.startswith("<") else owner
+    return head.rsplit("::", 1)[-1]
+
+
+def _last_segment(c):
+    """method name of a resolved callee path, ignoring a trailing turbofish"""
+    return _strip_trailing_generic(c).rsplit("::", 1)[-1]
+
+
 def callee_kind(c):
     for pat in TABLE["total_even_if_matching"]:
         if pat in c:
             return None
+    last = "::" + _last_segment(c)
+    recv = receiver_head(c)
+    if last in _INDEXED_ONLY and recv in _TOTAL_RECEIVERS:
+        return None
+    if last in ("::abs", "::pow") and recv in ("f32", "f64"):
+        return None
     for suffix, kind in TABLE["patterns"]:
         if suffix.startswith("::"):
             if c.endswith(suffix) or (suffix + "::<") in c:
@@ -87,7 +143,7 @@ def signature(site):
     for o in site.operands[:3]:
         try:
             t = strip_deep(R.operand(o))
-            s = _sig_str(t)
+            s = _sig_str(t, f)
         except RecursionError:
             s = "?"
         ops.append(s)
@@ -95,10 +151,19 @@ def signature(site):
     return "%s | %s | %s" % (short(f.path) if "closure" not in f.path else f.path.split("::", 1)[-1], what, " ; ".join(ops))
 
 
-def _sig_str(t, depth=0):
+def _sig_str(t, f=None):
     s = tree_str(t)
     s = re.sub(r"\s+", " ", s)
-    # blocks ids never appear in tree_str; truncate long trees deterministically
+    if f is not None:
+        # unresolved MIR locals (_27) are renumbered by unrelated edits: name them by debug name or type instead
+        def canon(m):
+            n = int(m.group(1))
+            if n < len(f.locals):
+                l = f.locals[n]
+                return "<%s>" % (l.get("name") or l.get("ty") or "tmp")
+            return "<tmp>"
+        s = re.sub(r"(?<![A-Za-z0-9_])_(\d+)(?![A-Za-z0-9_])", canon, s)
+    # truncate long trees deterministically
     return s if len(s) <= 140 else s[:137] + "..."
 
 
@@ -217,6 +282,15 @@ def discharge(prog, iv, site):
                             return "range ..min(x.len(), _) of the same x"
                 if hi[0] == "call" and hi[1].endswith("::len") and strip(hi[2][0]) == base_t:
                     return "range ..x.len() of the same x"
+            if name in ("RangeTo", "RangeFrom"):
+                # x[..n] / x[n..] with n = Ok payload of Read::read(_, &mut x): n <= x.len() by the contract of Read
+                bnd = strip(arg_t[2][0])
+                if bnd[0] == "call" and bnd[1].endswith("Read::read") and len(bnd[2]) == 2:
+                    dst = strip(bnd[2][1])
+                    while dst[0] == "cast":
+                        dst = strip(dst[2])
+                    if tree_str(strip_deep(dst)) == tree_str(strip_deep(base_t)):
+                        return "range bound is the byte count returned by Read::read into the same buffer (n <= len by the contract of Read)"
             agg = _agg_stmt(f, t["args"][1])
             if agg is not None and arr_len is not None:
                 ops = agg["ops"]
